@@ -43,3 +43,4 @@ Definition C17_blake_examples := (carry_32, carry_64, overflow_at_limit_32, over
 Print Assumptions C17_blake_t_exact.
 Print Assumptions C17_blake_increase_count_exact.
 Print Assumptions C17_blake_digests.
+Print Assumptions C17_blake_examples.
